@@ -565,3 +565,26 @@ def run(ctx) -> None:  # noqa: F811
                   "generator is then one draw behind and later repetitions of a window get different units than in the "
                   "full sequence", key_detail="skipped-draw")
     _inner_run_c10(ctx)
+
+
+# ---- added after the seeded change C10-r3seed6: window bounds are defaulted with `is None`
+_inner_run_c10b = run
+
+
+def run(ctx) -> None:  # noqa: F811
+    from ..rules import nonedefault
+
+    ctx.rule("R-NONEDEFAULT", nonedefault.__doc__.split("\n\n", 1)[1] + "  Applied to every function of the potential "
+             "modules that takes first_slice / last_slice: `last_slice or len(self)` turns the empty window [0, 0) "
+             "into the whole slice sequence, and the potential kinds then disagree")
+    n = 0
+    for mname in ("abtem.potentials.iam", "abtem.potentials.charge_density", "abtem.potentials.gpaw", "abtem.magnetism.iam"):
+        mod = ctx.repo.modules.get(mname)
+        if mod is None:
+            continue
+        fs = list(mod.functions.values()) + [f for c in mod.classes.values() for defs in c.methods.values() for f in defs]
+        for f in fs:
+            n += nonedefault.check(ctx, "R-NONEDEFAULT", f, {"first_slice", "last_slice"}, "window bound")
+    ctx.require(n >= 6, f"R-NONEDEFAULT examined only {n} functions with window parameters")
+    _inner_run_c10b(ctx)
+
